@@ -8,6 +8,7 @@ package main
 import (
 	"fmt"
 	"net"
+	"strings"
 	"time"
 
 	"github.com/tjfoc/gmsm/gmtls"
@@ -26,6 +27,9 @@ func runAH(f []string) (string, string) {
 	suite, ok := parseSuite(f[2])
 	if !ok {
 		return "BADCASE", ""
+	}
+	if strings.HasPrefix(f[3], "resume_") { // round-6 closure: session cache + tickets, the server's view of the certificate changes (ah3.go)
+		return runAHResume(suite, f[3])
 	}
 	honest, _ := serverAttack("honest")
 	untrusted, _ := serverAttack("untrusted") // sign + enc certificates issued by the attacker's CA, with their keys
